@@ -7,6 +7,7 @@ import (
 
 	"github.com/deepteams/webp/internal/bitio"
 	"github.com/deepteams/webp/internal/dsp"
+	"github.com/deepteams/webp/internal/verifhook"
 )
 
 // lossyDecoderPool caches Decoder structs between decode calls so that the
@@ -213,6 +214,9 @@ func DecodeFrame(data []byte) (dec *Decoder, width, height int, y []byte, yStrid
 		ReleaseDecoder(dec)
 		dec = nil
 		return
+	}
+	if verifhook.NoLoopFilter() {
+		dec.filterType = 0
 	}
 
 	width = dec.picHdr.Width
